@@ -1,4 +1,5 @@
 import MemcVerif.Proofs.Frames
+import MemcVerif.Model.Timed
 /-!
 # C18 — faults on one connection are contained
 
@@ -96,6 +97,69 @@ theorem C18_timeout_contained {σ : Type} (C : CacheOps σ) (limit now : Nat) (c
     unfold idleTimeout; by_cases h : c.closed = true <;> simp [h, Conn.dead]
   exact ⟨by simp [feed, hc], by simp [eof, hc]⟩
 
+/-! ## The receive timeout itself (`Model/Timed`)
+
+Only silence ends a connection: the timer is restarted by every request that becomes complete, answered or not. -/
+
+/-- one arrival before the deadline: exactly what the untimed connection does; the timer is restarted iff a request completed -/
+theorem tfeed_alive {σ : Type} (C : CacheOps σ) (limit rx now t : Nat) (tc : TConn) (s : σ) (chunk : Bytes) (ht : t < tc.deadline) :
+    (tfeed C limit rx now t tc s chunk).1.conn = (feed C limit now tc.conn s chunk).1 ∧
+    (tfeed C limit rx now t tc s chunk).2 = (feed C limit now tc.conn s chunk).2 := by
+  unfold tfeed
+  by_cases hc : tc.conn.closed = true
+  · simp [hc, feed]
+  · have hd : ¬ tc.deadline ≤ t := by omega
+    simp [hc, hd]
+
+/-- one arrival at or after the deadline: the connection has been dropped, the bytes are never read — not executed, not
+    answered, the store untouched -/
+theorem tfeed_timed_out {σ : Type} (C : CacheOps σ) (limit rx now t : Nat) (tc : TConn) (s : σ) (chunk : Bytes)
+    (hc : tc.conn.closed = false) (ht : tc.deadline ≤ t) :
+    tfeed C limit rx now t tc s chunk = (⟨Conn.dead, tc.deadline⟩, s, []) := by
+  simp [tfeed, hc, ht, idleTimeout]
+
+/-- **an active client is never timed out**, however long it stays and whether or not any of its commands is answered: over
+    any number of arrivals, each before the pending deadline and each completing at least one request, the connection, the
+    store and the bytes written are those of the connection without a timeout -/
+theorem C18_active_client_not_timed_out {σ : Type} (C : CacheOps σ) (limit rx : Nat) (d : Nat) (c : Conn) (s : σ)
+    (as : List (Nat × Nat × Bytes)) (h : Active C limit rx d c s as) :
+    (tfeedSeq C limit rx ⟨c, d⟩ s as).1.conn = (ufeedSeq C limit c s as).1 ∧
+    (tfeedSeq C limit rx ⟨c, d⟩ s as).2 = (ufeedSeq C limit c s as).2 := by
+  induction as generalizing d c s with
+  | nil => exact ⟨rfl, rfl⟩
+  | cons a rest ih =>
+    obtain ⟨t, now, chunk⟩ := a
+    obtain ⟨hc, ht, hn, hrest⟩ := h
+    have h1 := tfeed_alive C limit rx now t ⟨c, d⟩ s chunk ht
+    simp only at h1
+    -- the timed state after this arrival: same connection, deadline restarted
+    have hdl : (tfeed C limit rx now t ⟨c, d⟩ s chunk).1 = ⟨(feed C limit now c s chunk).1, t + rx⟩ := by
+      unfold tfeed
+      have hd : ¬ d ≤ t := by omega
+      have hn0 : (drain limit c.pst (c.buf ++ chunk)).1.length ≠ 0 := by omega
+      simp [hc, hd, hn0]
+    have ih' := ih (t + rx) (feed C limit now c s chunk).1 (feed C limit now c s chunk).2.1 hrest
+    simp only [tfeedSeq, ufeedSeq]
+    rw [hdl]
+    have h2 : (tfeed C limit rx now t ⟨c, d⟩ s chunk).2 = (feed C limit now c s chunk).2 := h1.2
+    rw [h2]
+    exact ⟨ih'.1, by rw [ih'.2]⟩
+
+/-- whole acceptable requests make progress: a batch that starts with a complete frame on an idle connection with nothing
+    buffered completes at least one request -/
+theorem progress_of_frame (limit : Nat) {fb : Bytes} {h : ReqHeader} (hf : IsFrame fb h) (rest : Bytes)
+    (hok : frameOK limit fb h = true) : 0 < (drain limit .idle ([] ++ (fb ++ rest))).1.length := by
+  simp only [List.nil_append]
+  rw [drain_frame limit hf rest hok]; simp
+
+/-- the premises of `C18_active_client_not_timed_out` are satisfiable: one quiet-set frame arriving at instant 1500 on a fresh
+    connection opened at instant 0 under a timeout of 2000 -/
+example {σ : Type} (C : CacheOps σ) (s : σ) (fb : Bytes) (h : ReqHeader) (hf : IsFrame fb h) (hok : frameOK 1024 fb h = true) :
+    Active C 1024 2000 (TConn.start 0 2000).deadline Conn.init s [(1500, 7, fb)] := by
+  refine ⟨rfl, by simp [TConn.start], ?_, trivial⟩
+  have := progress_of_frame 1024 hf [] hok
+  simpa [Conn.init] using this
+
 end Memc
 
 #print axioms Memc.C18_truncated_no_event
@@ -106,3 +170,7 @@ end Memc
 #print axioms Memc.C18_protoErr_contained
 #print axioms Memc.C18_store_is_fold_of_complete
 #print axioms Memc.C18_timeout_contained
+#print axioms Memc.tfeed_alive
+#print axioms Memc.tfeed_timed_out
+#print axioms Memc.C18_active_client_not_timed_out
+#print axioms Memc.progress_of_frame
